@@ -199,55 +199,63 @@ class SWorld:
         self.drv.finish()
 
 
+def _norm(v, depth=0):
+    if hasattr(v, '_fwdm'):
+        v = dict(v._fwdm)
+    if isinstance(v, dict):
+        return {k: _norm(x, depth + 1) for k, x in v.items()}
+    if isinstance(v, (list, tuple, set, frozenset)):
+        return [_norm(x, depth + 1) for x in v]
+    if v is None or isinstance(v, (bool, int, float, str, bytes)):
+        return v
+    return '<%s>' % type(v).__name__
+
+
+SKIP_ATTRS = {'handlers', 'namespace_handlers', 'namespaces', 'logger', 'server', 'eio', 'manager', 'packet_class'}
+
+
+def containers(obj, prefix):
+    """every dict / list / set attribute of obj (generic: new state attributes are picked up automatically)"""
+    out = {}
+    for name, v in vars(obj).items():
+        if name in SKIP_ATTRS:
+            continue
+        if isinstance(v, (dict, list, set)) or hasattr(v, '_fwdm'):
+            out['%s.%s' % (prefix, name)] = v
+    return out
+
+
 def server_state(s):
-    """everything the server keeps on behalf of clients (snapshot for equality checks)"""
-    m = s.manager
-    rooms = {ns: {room: dict(bd._fwdm) for room, bd in r.items()} for ns, r in m.rooms.items()}
-    cbs = {sid: sorted(k for k in d) for sid, d in m.callbacks.items()}
-    return dict(rooms=rooms, callbacks=cbs, pending={k: list(v) for k, v in m.pending_disconnect.items()},
-                environ=sorted(s.environ), binary=sorted(s._binary_packet), eio_to_sid=dict(m.eio_to_sid))
+    """everything the server and its manager keep in containers (snapshot for equality checks)"""
+    out = {}
+    for k, v in containers(s.manager, 'manager').items():
+        out[k] = _norm(v)
+    for k, v in containers(s, 'server').items():
+        out[k] = _norm(v)
+    return out
 
 
-class CWorld:
-    """a real Client / AsyncClient on the fake engine.io client; the harness plays the server"""
+def find_refs(v, needles, path, out, depth=0):
+    """paths inside container v at which any of the needles occurs as a key, element or value"""
+    if depth > 6:
+        return
+    if hasattr(v, '_fwdm'):
+        v = dict(v._fwdm)
+    if isinstance(v, dict):
+        for k, x in v.items():
+            if isinstance(k, str) and k in needles:
+                out.append('%s[%s]' % (path, k))
+            find_refs(x, needles, '%s[%r]' % (path, k), out, depth + 1)
+    elif isinstance(v, (list, tuple, set, frozenset)):
+        for x in v:
+            find_refs(x, needles, path + '[]', out, depth + 1)
+    elif isinstance(v, str) and v in needles:
+        out.append(path)
 
-    def __init__(self, asyncio_=False, chooser=None, P=None, max_steps=600, world=None, **kw):
-        self.asyncio_ = asyncio_
-        self.drv = AsyncDriver(chooser, max_steps) if asyncio_ else SyncDriver()
-        kw.setdefault('reconnection', False)
-        self.c, self.eio, self.P = make_client(asyncio_, P=P or inj_packet_class(), **kw)
-        self.eio.world = world
-        self.pos = 0
-        self.nsid = 0
 
-    def call(self, x):
-        return self.drv.call(x)
-
-    def recv(self, frame):
-        return self.call(self.eio.recv(frame))
-
-    def send(self, pkt):
-        """the server sends a packet"""
-        for f in encode_frames(pkt):
-            self.recv(f)
-
-    def take(self):
-        new = self.eio.out[self.pos:]
-        self.pos = len(self.eio.out)
-        return decode_frames(self.P, [f for f in new if not isinstance(f, tuple)])
-
-    def connect(self, namespaces=('/',), accept=True, **kw):
-        """client.connect(wait=False) followed by the server's CONNECT answers"""
-        self.call(self.c.connect('http://h', namespaces=list(namespaces), wait=False, **kw))
-        self.take()
-        if accept:
-            for ns in namespaces:
-                self.accept(ns)
-
-    def accept(self, ns):
-        self.nsid += 1
-        self.send(self.P(packet.CONNECT, data={'sid': 'sid%d' % self.nsid}, namespace=ns))
-        return 'sid%d' % self.nsid
-
-    def finish(self):
-        self.drv.finish()
+def client_residue(s, needles):
+    """where the server or its manager still mention any of the given ids"""
+    out = []
+    for k, v in list(containers(s.manager, 'manager').items()) + list(containers(s, 'server').items()):
+        find_refs(v, set(needles), k, out)
+    return out
